@@ -302,6 +302,22 @@ echo "got=$got expected=%(expected)s   # %(note)s"
 '''
 
 
+def _assembles(asm, tag):
+    """does the real assembler accept the emitted text? (every probe program is also an instance of C13's
+    'output that the assembler accepts')"""
+    d = vf.subdir("as")
+    sp = os.path.join(d, tag + ".s")
+    with open(sp, "w") as fh:
+        fh.write(asm)
+    rc, o, e, _ = vf.run(["as", "-o", os.path.join(d, tag + ".o"), sp], timeout=120)
+    for f in (sp, os.path.join(d, tag + ".o")):
+        try:
+            os.remove(f)
+        except OSError:
+            pass
+    return rc == 0
+
+
 def _work(idxs):
     """Worker: compile a chunk of probes into one translation unit, execute, prove."""
     global _BUILD
@@ -312,6 +328,8 @@ def _work(idxs):
     rc, asm, err = vf.chibicc_S(src, name="chunk%d_%d" % (idxs[0], os.getpid()), builddir=_BUILD, want_rc=True)
     progs = {}
     P = None
+    if rc == 0 and not _assembles(asm, "chunk%d_%d" % (idxs[0], os.getpid())):
+        rc = -999           # the assembler rejects the emitted text: isolate the probe(s) below
     if rc == 0:
         try:
             P = asmx.Program(asm)
@@ -323,7 +341,9 @@ def _work(idxs):
     else:
         for p in probes:
             rc1, asm1, err1 = vf.chibicc_S(p.csrc, name="one%d_%s" % (os.getpid(), p.fn), builddir=_BUILD, want_rc=True)
-            if rc1 == 0:
+            if rc1 == 0 and not _assembles(asm1, "one%d_%s" % (os.getpid(), p.fn)):
+                progs[p.key] = ("asm-unparsable", "the assembler rejects the emitted text", asm1)
+            elif rc1 == 0:
                 try:
                     progs[p.key] = asmx.Program(asm1)
                 except asmx.Unmodelled as ex:
